@@ -218,6 +218,12 @@ def ieval(g, rd, f, idx, ctx, env, depth=0):
         last = c.rsplit('::', 1)[-1]
         if ('call:' + last) in env:
             return env['call:' + last]
+        if c in ('std::min', 'std::max') and len(n.get('args', [])) == 2:
+            a = ieval(g, rd, f, n['args'][0], ctx, env, depth + 1)
+            b = ieval(g, rd, f, n['args'][1], ctx, env, depth + 1)
+            if isinstance(a, int) and isinstance(b, int) and not isinstance(a, bool) and not isinstance(b, bool):
+                return min(a, b) if c == 'std::min' else max(a, b)
+            return None
         if n.get('op') == '[]' and n.get('obj') is not None and n.get('args'):
             b = env.get(path_str(access_path(f, n['obj'], ctx)) + '.data()')
             i = ieval(g, rd, f, n['args'][0], ctx, env, depth + 1)
